@@ -20,7 +20,7 @@ def payload_heap(c, old=False):
 
 
 def register(reg):
-    P = ("C10",)
+    P = ("C10", "C07")
     k = reg.contract("_marker_relation:MarkerRelation.attach_payload", properties=P, modifies=("BaseRelation.payload",))
     old_p = lambda c: z3.Select(payload_heap(c, True), c.self.z)  # noqa: E731
     new_p = lambda c: z3.Select(payload_heap(c), c.self.z)  # noqa: E731
@@ -29,6 +29,8 @@ def register(reg):
                                 patterns=[z3.Select(payload_heap(c), o)])
     k.ens("empty-marker-gets-the-payload", lambda c: B(new_p(c) == c.payload.z))
     k.ens("only-this-markers-cell-written", lambda c: B(frame(c)))
+    from contracts.apply import extends
+    k.ens("keeps-every-existing-payload", lambda c: B(extends(payload_heap(c, True), payload_heap(c))))
     k.must("non-empty-payload-rejected", "TypeError", lambda c: B(old_p(c) != smt.NONE))
     k.raises("TypeError", lambda c: B(old_p(c) != smt.NONE))
     k.exc_ens("rejected-attach-changes-nothing", lambda c: B(payload_heap(c) == payload_heap(c, True)))
